@@ -332,6 +332,7 @@ impl Campaign for C19c {
         let n = g.usize(1, 4);
         let mut steps = vec![];
         let mut special = false;
+        let mut wall_now = sc.knobs.wall_base_secs as i64;
         for r in 0..n {
             let id = format!("c0r{}", r);
             if r > 0 {
@@ -339,17 +340,21 @@ impl Campaign for C19c {
                 if g.chance(2, 3) {
                     let j = *g.pick(&[1i64, 59, 86_400, -3600, 31_536_000, 1_000_000_000]);
                     // stay inside the years 1970..9998 (the range an HTTP-date can express)
-                    let after = sc.knobs.wall_base_secs as i64 + j;
-                    if after >= 0 && after + 200 < 253_402_300_799 {
+                    // (cumulative: earlier jumps and pauses of this conversation count)
+                    let after = wall_now + j;
+                    if after >= 0 && after + 400 < 253_402_300_799 {
                         steps.push(ClientStep::JumpWall(j));
+                        wall_now = after;
                         special = true;
                     }
                 }
                 if g.chance(1, 2) {
                     // gaps below one second that still cross a change of the second, and longer ones
                     steps.push(ClientStep::Pause(*g.pick(&[SEC, 61 * SEC, MS, 300 * MS, 600 * MS, 999 * MS, 400 * MS])));
-                    if sc.knobs.wall_base_secs == 253_370_764_799 {
+                    if wall_now + 70 >= 253_402_300_799 {
                         steps.pop();
+                    } else if let Some(ClientStep::Pause(p)) = steps.last() {
+                        wall_now += (*p / SEC) as i64 + 1;
                     }
                 }
             }
